@@ -205,3 +205,104 @@ func zzC03Fold(b []byte, w string) bool {
 	}
 	return true
 }
+
+var zzC03Strs = []string{"a\"b", "x\\y", "tab\there", "plain", ""}
+
+// zzC03Leaf builds a leaf: kind 0 concrete string (by index), 1 symbol of two
+// symbolic bytes from a small alphabet with a blank and a paren (so that some
+// names need bars), 2 symbolic fixnum (|x| < 1000), 3 symbolic lower-case letter
+// character, 4 nil.
+func zzC03Leaf(tag string, kind int, si int) Object {
+	switch kind {
+	case 0:
+		return String(zzC03Strs[si%len(zzC03Strs)])
+	case 1:
+		b := vrt.Bytes(tag, 2)
+		zzAlphabet(b, "ab (")
+		return Symbol(string(b))
+	case 2:
+		x := vrt.Int64(tag)
+		vrt.Assume(-1000 < x && x < 1000)
+		return Fixnum(x)
+	case 3:
+		r := vrt.Rune(tag)
+		vrt.Assume('a' <= r && r <= 'z')
+		return Character(r)
+	}
+	return nil
+}
+
+// zzC03SameTree: structural equality, symbols compared without case.
+func zzC03SameTree(a, b Object) bool {
+	switch ta := a.(type) {
+	case nil:
+		return b == nil
+	case Symbol:
+		tb, ok := b.(Symbol)
+		return ok && len(ta) == len(tb) && ta.Equal(tb)
+	case List:
+		tb, ok := b.(List)
+		if !ok || len(ta) != len(tb) {
+			return false
+		}
+		for i := range ta {
+			if !zzC03SameTree(ta[i], tb[i]) {
+				return false
+			}
+		}
+		return true
+	case Tail:
+		tb, ok := b.(Tail)
+		return ok && zzC03SameTree(ta.Value, tb.Value)
+	case *Vector:
+		tb, ok := b.(*Vector)
+		return ok && zzC03SameTree(ta.AsList(), tb.AsList())
+	}
+	return zzSame(a, b)
+}
+
+// VerifC03Tree: a small structure (list, nested list, dotted list or vector) of
+// leaves printed readably — flat or pretty with a symbolic right margin — reads
+// back as an equal structure. k0..k2 are the leaf kinds, si the string index.
+func VerifC03Tree(shape int, k0 int, k1 int, k2 int, si int, pretty int) {
+	l0, l1, l2 := zzC03Leaf("l0", k0, si), zzC03Leaf("l1", k1, si+1), zzC03Leaf("l2", k2, si+2)
+	var obj Object
+	switch shape {
+	case 0:
+		obj = List{l0, l1, l2}
+	case 1:
+		obj = List{List{l0, l1}, l2}
+	case 2:
+		obj = List{l0, List{l1, List{l2}}}
+	case 3:
+		obj = List{l0, l1, Tail{Value: l2}}
+		vrt.Assume(l2 != nil)
+	case 4:
+		obj = NewVector(3, TrueSymbol, nil, List{l0, l1, l2}, true)
+	}
+	p := zzC03Printer(true)
+	p.Array = true
+	p.Pretty = pretty != 0
+	if p.Pretty {
+		m := vrt.Int("margin")
+		vrt.Assume(1 <= m && m <= 200)
+		p.RightMargin = uint(m)
+	}
+	needBars := false
+	for _, l := range []Object{l0, l1, l2} {
+		if sym, ok := l.(Symbol); ok {
+			for i := 0; i < len(sym); i++ {
+				if sym[i] == ' ' || sym[i] == '(' {
+					needBars = true
+				}
+			}
+		}
+	}
+	vrt.Carve("C03-pretty-symbol-unquoted", pretty != 0 && needBars)
+	text := p.Append(nil, obj, 0)
+	out := zzC03Read(text)
+	vrt.Reach("read")
+	vrt.Assert(out.class != 3 && out.class != 4, "reading a printed structure is a Go fault")
+	vrt.Assert(out.class == 0 && len(out.code) == 1, "a printed structure cannot be read back")
+	vrt.Assert(zzC03SameTree(obj, out.code[0]), "a printed structure reads back as a different object")
+}
